@@ -56,9 +56,9 @@ theorem infer_mono (s : Subst) (i j : Nat) (a : GTy) (h : (s.get j).isSome = tru
     rw [Subst.get_append_of_none s i j a hg]
     by_cases hji : j = i <;> simp [hji, h]
 
-/-- matching a pattern (without optionals) against its own instance records exactly `σ` on the
-pattern's variables and keeps what was recorded before -/
-theorem tplMatch_instance (σ : Nat → GTy) (p : GTy) (hp : noOpt p = true) :
+/-- matching a pattern against its own instance records exactly `σ` on the pattern's variables and
+keeps what was recorded before -/
+theorem tplMatch_instance (σ : Nat → GTy) (p : GTy) :
     ∀ s, Agrees s σ →
       Agrees (tplMatch p (gsubst σ p) s) σ ∧
       (∀ i ∈ vars p, ((tplMatch p (gsubst σ p) s).get i).isSome = true) ∧
@@ -72,23 +72,24 @@ theorem tplMatch_instance (σ : Nat → GTy) (p : GTy) (hp : noOpt p = true) :
     intro j hj; subst hj; exact infer_bound s j _
   | array t ih =>
     intro s h
-    simpa [tplMatch, gsubst, vars] using ih (by simpa [noOpt] using hp) s h
+    simpa [tplMatch, gsubst, vars] using ih s h
   | tgen k v ihk ihv =>
     intro s h
-    simp only [noOpt, Bool.and_eq_true] at hp
-    obtain ⟨a1, b1, m1⟩ := ihk hp.1 s h
-    obtain ⟨a2, b2, m2⟩ := ihv hp.2 _ a1
+    obtain ⟨a1, b1, m1⟩ := ihk s h
+    obtain ⟨a2, b2, m2⟩ := ihv _ a1
     simp only [tplMatch, gsubst, vars, List.mem_append]
     refine ⟨a2, ?_, fun j hj => m2 j (m1 j hj)⟩
     rintro i (hi | hi)
     · exact m2 i (b1 i hi)
     · exact b2 i hi
-  | opt t _ => simp [noOpt] at hp
+  | opt t ih =>
+    intro s h
+    simpa [tplMatch, gsubst, vars, stripNil] using ih s h
   | fn r ih =>
     intro s h
-    simpa [tplMatch, gsubst, vars] using ih (by simpa [noOpt] using hp) s h
+    simpa [tplMatch, gsubst, vars] using ih s h
 
-theorem tplMatchArgs_instance (σ : Nat → GTy) (ps : List GTy) (hp : ∀ p ∈ ps, noOpt p = true) :
+theorem tplMatchArgs_instance (σ : Nat → GTy) (ps : List GTy) :
     ∀ s, Agrees s σ →
       Agrees (tplMatchArgs ps (ps.map (gsubst σ)) s) σ ∧
       (∀ p ∈ ps, ∀ i ∈ vars p, ((tplMatchArgs ps (ps.map (gsubst σ)) s).get i).isSome = true) ∧
@@ -97,8 +98,8 @@ theorem tplMatchArgs_instance (σ : Nat → GTy) (ps : List GTy) (hp : ∀ p ∈
   | nil => intro s h; simp [tplMatchArgs, h]
   | cons p ps ih =>
     intro s h
-    obtain ⟨a1, b1, m1⟩ := tplMatch_instance σ p (hp p (List.mem_cons_self)) s h
-    obtain ⟨a2, b2, m2⟩ := ih (fun q hq => hp q (List.mem_cons_of_mem _ hq)) _ a1
+    obtain ⟨a1, b1, m1⟩ := tplMatch_instance σ p s h
+    obtain ⟨a2, b2, m2⟩ := ih _ a1
     simp only [List.map_cons, tplMatchArgs]
     refine ⟨a2, ?_, fun j hj => m2 j (m1 j hj)⟩
     intro q hq i hi
@@ -126,23 +127,25 @@ theorem instantiate_of_agrees (σ : Nat → GTy) (s : Subst) (h : Agrees s σ) (
   | opt t ih => simp [instantiate, gsubstW, gsubst] at *; exact ih hr
   | fn t ih => simp [instantiate, gsubstW, gsubst] at *; exact ih hr
 
-/-- **C18 instantiate ∘ match.** For every parameter list `ps` without optional patterns, every
-assignment `σ` of argument components and every return type `r` that only mentions template
-parameters occurring in `ps`: calling with the instances `ps[σ]` infers `r[widen σ]`.
-(All of the template family: identity, `T[]`, nested arrays, pair, `table<K,V>`, `fun(): T`.) -/
+/-- **C18 instantiate ∘ match.** For every parameter list `ps`, every assignment `σ` of argument
+components and every return type `r` that only mentions template parameters occurring in `ps`:
+calling with the instances `ps[σ]` infers `r[widen σ]`.
+(All of the template family: identity, `T[]`, nested arrays, pair, `table<K,V>`, `T?`, `fun(): T`.
+For `T?` the instance is `opt (σ T)`: the component itself is what remains once the argument's `nil`
+is taken off — an argument component that is itself optional cannot be told apart from that.) -/
 theorem C18_instantiate_match (σ : Nat → GTy) (ps : List GTy) (r : GTy)
-    (hp : ∀ p ∈ ps, noOpt p = true) (hr : ∀ i ∈ vars r, ∃ p ∈ ps, i ∈ vars p) :
+    (hr : ∀ i ∈ vars r, ∃ p ∈ ps, i ∈ vars p) :
     inferCall ps (ps.map (gsubst σ)) r = gsubstW σ r := by
-  obtain ⟨a, b, _⟩ := tplMatchArgs_instance σ ps hp [] (by intro i a h; simp [Subst.get] at h)
+  obtain ⟨a, b, _⟩ := tplMatchArgs_instance σ ps [] (by intro i a h; simp [Subst.get] at h)
   exact instantiate_of_agrees σ _ a r (fun i hi => by
     obtain ⟨p, hp', hi'⟩ := hr i hi
     exact b p hp' i hi')
 
-/-- current code (known finding `C18-optional-param`): for `---@param a T?` / `---@return T` the
-union pattern matches `T` against the whole argument, so the `nil` of an optional argument stays in
-the result -/
-theorem C18_optional_param_witness :
-    inferCall [.opt (.v 0)] [.opt (.base (.prim .string))] (.v 0) = .opt (.base (.prim .string)) := by
+/-- `---@param a T?` / `---@return T` with an optional argument: the `nil` is consumed by the pattern
+(finding `C18-optional-param`, fixed) -/
+theorem C18_optional_param :
+    inferCall [.opt (.v 0)] [.opt (.base (.prim .string))] (.v 0) = .base (.prim .string) ∧
+    inferCall [.opt (.v 0)] [.base (Ty.mk [.lit (.docStr "a".toList), Ty.tNil])] (.v 0) = .base (.prim .string) := by
   decide
 
 /-! Non-vacuity (tests, labelled as such). -/
